@@ -19,6 +19,11 @@ CHECKS = {
    technique="stateless DFS over every outcome combination of every bounded draw of the real Generate (complete cell), exact rational output distribution compared with an independent model",
    text="Every combination of draw outcomes is executed on the real code for each recipe of a ~68k-recipe configuration set, 1-3 candidates deep; the exact probability of every returned string is computed as a rational and must be equal over exactly the model's valid strings. Single-word lift/reject deviations show that only the accepted outcome of a draw matters.",
    note="Relies on C01 for per-draw uniformity; cells are bounded (lengths 1-3 for custom alphabets, class-sized alphabets up to 10^4 leaves); retry depth cut at 1-3 candidates with the cut mass accounted."),
+ "C07": dict(
+   engine="E-config", category="model_checking", ref="§3 C07",
+   technique="exhaustive configuration enumeration of the real Entropy()/exact count against independent inclusion-exclusion and brute-force string enumeration",
+   text="Entropy() involves no randomness, so the whole bounded recipe space is enumerated: every allow/exclude subset and every multiset of required subsets over a 4-5 character universe (all overlap patterns), all 2^15 class-flag triples, lengths to 5000, 5-8 required sets. The exact integer behind the entropy must equal an independently computed count; the float must be its log2 within 1 ulp32.",
+   note="Universe and lengths are bounded as stated in the evidence rule; recipes whose required set is emptied by exclusion are outside the property's premise and skipped. Trusted: math/big, math.Log2, the verif-tagged VerifCount export mirroring Entropy()'s branch."),
 }
 
 PENDING_REASON = "check not built yet in this session (planned in DESIGN.md §3; will be claimed when its checker exists)"
@@ -54,6 +59,7 @@ def main():
         engines=[
             dict(name="E1-sweep", path="/verif/harness/checks/c01.go", serves_properties=["C01"], kind_free_text="full 2^32 word sweep over a scripted crypto/rand.Reader, shared-memory histogram"),
             dict(name="E1-cells", path="/verif/harness/checks/cells.go", serves_properties=["C02"], kind_free_text="stateless DFS over announced draw outcomes (tape explorer) with exact rational leaf masses"),
+            dict(name="E-config", path="/verif/harness/checks/c07.go", serves_properties=["C07"], kind_free_text="exhaustive enumeration of recipe configurations (no randomness involved)"),
         ],
         checks=checks,
         notes="All checks: ./run <ID> <tier> rebuilds /verif/bin/check from /repo's working tree with -tags verif, then shards over 16 worker processes. See DESIGN.md.",
